@@ -75,7 +75,7 @@ def judge(chk, obs, dbs, tag, asis=False):
     envs, sizes = [], []
     for n, start in enumerate(range(0, len(obs), BATCH)):
         chunk = obs[start:start + BATCH]
-        path = common.write_json({'lits': lits, 'dbs': encoded,
+        path = common.write_json({'lits': lits, 'dbs': encoded, 'fixed': relgen.detect_fixes(),
                                   'obs': [{'ast': o['ast'], 'runs': [{'db': r['db'], 'outs': r['outs']} for r in o['runs']]}
                                           for o in chunk]}, f'reads-{tag}-{n}.json')
         envs.append({'TRACE_FILE': path})
@@ -231,7 +231,8 @@ def parser_level(chk):
     dbs = relgen.make_dbs(chk.seed, 3)
     tasks = []
     for idx, ast in enumerate(stmts):
-        dbis = [i for i, d in enumerate(dbs) if d['keyed'] or not relgen.needs_keyed(ast)]
+        dbis = [i for i, d in enumerate(dbs) if (d['keyed'] or not relgen.needs_keyed(ast))
+                and relgen.row_bound(ast, d['data']) <= relgen.MAX_ROWS]
         tasks.append((idx, ast, dbis))
     t0 = time.time()
     ctx = multiprocessing.get_context('fork')
@@ -483,6 +484,7 @@ def main(chk):
     import warnings
     warnings.simplefilter('ignore')
     logging.disable(logging.CRITICAL)
+    chk.extra['as_is_model_variant'] = {'FactorsImpl.Fixed': relgen.detect_fixes()}
     parser_level(chk)
     reader_level(chk)
     chk.assume('values are compared in an integer encoding: NULL sentinel, booleans 0/1, integral floats as integers, '
